@@ -5,7 +5,7 @@ from props import *
 MANIFEST = dict(
     text="Lean theorems on the timed model (timers and tickers may fire late, never early - the only assumption): Delay's k-th delivery is the k-th emission, no sooner than its delay later "
          "(pigeonhole over the AfterFunc callbacks) and in emission order; Interval / IntervalWithInitial / Timer / RangeWithInterval emit 0,1,2,... with value k not before k+1 periods "
-         "(initial + k periods); Timeout errors only after a full quiet period measured from the end of the last forwarded Next and never after a forwarded terminal; ThrottleTime's consecutive "
+         "(initial + k periods, every initial >= 0 and interval > 0); Timeout errors only after a full quiet period measured from the end of the last forwarded Next and never after a forwarded terminal; ThrottleTime's consecutive "
          "passes are more than the window apart; sampling gives at most one value per tick, always the latest; time-buffers emit only source values in source order; silence after teardown, and after context cancellation as a count (at most 8 further ticks + flush + terminal + one per late source call - a stream that keeps delivering is rejected). "
          "Tie (weaker than equality, stated honestly): the real operators are run in real time over seeded timelines and the proved acceptor (`accepts -> clause`, and `model run -> accepts`) "
          "must ACCEPT every observed timed trace - acceptance of observed traces, not equality of outputs; only lower bounds on time and order/count relations are judged, so machine load cannot raise an alarm.",
